@@ -93,6 +93,18 @@ CLAIMED = {
             "are invisible); exhaustive only up to the stated preemption bound per generated program.",
             "schedule enumeration (bounded-preemption DFS, PCT, random walk) over generated lock scripts with "
             "history-invariant oracle", "5 C07"),
+    "C08": ("seq + qsbr_fault", "fault_enumeration",
+            "For every insert and remove of generated histories on all six index/key configurations the library's "
+            "own allocation-failure injector fails the k-th allocation for k = 1.. until the operation completes "
+            "(every allocation it makes is failed exactly once, no hard-coded counts); over-long values and keys "
+            "are refused by std::length_error; QSBR resume, qsbr_thread start and deferred-deallocation requests "
+            "get the same k-loop in a no-sanitizer build whose operator new is intercepted. Before/after snapshots "
+            "(scan output with values, get of every key, statistics, memory use, the set of live blocks) must be "
+            "identical; a spin-wait reached single-threaded means a lock was left held.",
+            "The injector exists only in assertion-enabled builds (as in the repository); under ASan only "
+            "allocate_aligned is intercepted (tree nodes and leaves), operator new only in the QSBR part. olc_db "
+            "runs with a single registered thread as the property states.",
+            "exhaustive fault-point enumeration over generated histories with snapshot-equality oracle", "5 C08"),
     "C10": ("seq", "exploration",
             "After every mutating operation of generated histories the reported node counts are compared with the "
             "canonical path-compressed radix tree of the model key set, the growing/shrinking/prefix-split "
@@ -168,10 +180,13 @@ def main():
             "add_only": True,
         },
         "engines": [
-            {"name": "seq", "path": "src/seq", "serves_properties": ["C01", "C02", "C10"],
+            {"name": "seq", "path": "src/seq", "serves_properties": ["C01", "C02", "C08", "C10"],
              "kind_free_text": "in-house property-based tester: seeded structured generators of operation "
                                "histories, interpreter with map / canonical-radix-tree models, fork-isolated "
                                "delta-debugging shrinker, text replay files; built with ASan+UBSan+assertions"},
+            {"name": "qsbr_fault", "path": "src/fault", "serves_properties": ["C08"],
+             "kind_free_text": "generated QSBR scripts with the k-th-allocation fault loop around resume / thread "
+                               "start / deallocation request; built without sanitizers, links test_heap.cpp"},
             {"name": "enc", "path": "src/enc", "serves_properties": ["C11", "C12", "C15"],
              "kind_free_text": "exhaustive chain enumerator (optimised build) + seeded generator of component tuples "
                                "with value shrinking (ASan+UBSan build); oracle restates the documented total order"},
